@@ -32,6 +32,9 @@ def main():
                 rec['r'] = O.with_alarm(limit, O.query, objs[st['obj']], st['q'])
             elif op == 'xform':
                 rec['r'] = O.with_alarm(limit, O.transform, st['t'])
+            elif op == 'env':
+                O.set_env(st['e'])
+                rec['r'] = 'ok'
             elif op == 'del':
                 objs.pop(st['obj'], None)
                 gc.collect()
